@@ -1,12 +1,42 @@
 import Pyrtma.Proofs.ClientSub
+import Pyrtma.Proofs.ClientLife
 /-!
 # C02 — client and manager always agree on the subscription set
 
-Theorems about `Model/ClientSub.lean`: the client's bookkeeping (`_subscription_control`, the eight public
-subscription methods, both context managers, the reset on reconnect — with the C02 fixes applied) composed with the
-manager's `add_subscription` / `remove_subscription` on its two tables.  They hold for **every** history of API calls
-from the initial state, every argument list (any length, duplicates, `ALL_MESSAGE_TYPES` alone or mixed in, types
-already in the target state), and every order in which the control frames of one call reach the manager.
+**First layer** — theorems about `Model/ClientSub.lean`: the client's bookkeeping (`_subscription_control`, the eight
+public subscription methods, both context managers — with the C02 fixes applied) composed with the manager's
+`add_subscription` / `remove_subscription` on its two tables, on ONE connected session.  They hold for **every**
+history of API calls from the just-connected state, every argument list (any length, duplicates,
+`ALL_MESSAGE_TYPES` alone or mixed in, types already in the target state), and every order in which the control
+frames of one call reach the manager: `agree_preserved`, `agree_step`, `agree_history`, `delivered_iff_reported`,
+`paused_types_not_delivered`, `refused_sends_nothing`, `refused_iff`, `ctx_restores`, `mgr_index_consistent`,
+`op_meets_spec`, `history_meets_spec`.
+
+**Second layer, the session life cycle** — theorems about `Model/ClientLife.lean`: ONE `Client` object from its
+constructor on, through any number of sessions: `connect` (handshake CONNECT_V2 + CONNECT, the manager's answer — an
+ACK carrying the id, or a closed connection —, `connect()` on a still-connected client), `disconnect`, the connection
+dying under a read / under a send / just before a subscription call (noticed by the manager or not: an unnoticed
+connection stays in the manager's table with its id and subscriptions), the manager discovering dead connections;
+next to an arbitrary table of other module records and any position of the dynamic-id cursor.  What
+`_connect_helper` / `disconnect` / the `ConnectionLost` paths reset and what they keep is in the model exactly:
+`lost_keeps_state`, `disconnect_resets`.  For every such history:
+* `life_invariant`, `life_agree_history`, `life_agree_every_phase` — a connected client's *current* connection is in
+  the manager's table under the id the client reports and both sides agree (reported = delivered, paused not
+  delivered), after every call and every phase;
+* `connect_starts_empty` — right after any accepted (re)connect both sides are empty and not subscribed-to-all,
+  whatever the earlier sessions left behind (the class of the seeded regressions C02c / C08d);
+* `connect_requests_created_id`, `reported_id_is_acked_id`, `dynamic_id_fresh` — the client half of C06's dynamic-id
+  sentence (the class of seed C06d): every connect asks for the id the object was created with, the id reported
+  afterwards is the ACK's (= the manager's record), a dynamic one is in range and held by no other record;
+* `disconnected_refuses`; `life_step_meets_spec`, `life_history_meets_spec`, `life_from_init_meets_spec` — the
+  life-cycle Spec (`Spec/ClientLife.lean`, the oracle run on the implementation) holds of the model.
+Every history theorem asks for `ops.all LOp.timely`: no handshake of the history is answered later than the 3 s of
+`_wait_for_acknowledgement` (`connectLate`).  The model has that operation too — exactly as the code behaves — and
+`late_ack_breaks_agreement` is the kernel-checked counterexample: `connect()` then raises `AcknowledgementTimeout`
+but leaves the object connected and un-reset (open finding C02-F4, `out/defect_1.md`).
+Not in the model: module names (the harness connects with the empty name), a connection that dies *between* two
+control frames of one call (the frames of a call travel in unspecified order; only "before the first" is modelled),
+logger / daemon flags (they do not touch the subscription state; C06 entry model).
 -/
 namespace Pyrtma.C02
 open Pyrtma.ClientSub
@@ -191,6 +221,208 @@ theorem history_meets_spec (U : List Int) : ∀ (ops : List Op) (s : Sys), Agree
     exact h2
 
 
+/-! ## The session life cycle (`Model/ClientLife.lean`): one `Client` object, any number of sessions
+
+Histories of `LOp`: subscription calls, `connect` (on a connected or a disconnected client), `disconnect`, the
+connection dying under a read, under a send or just before a subscription call (noticed by the manager or not),
+and the manager discovering dead connections — from the constructor on, next to arbitrary other module records. -/
+
+/-- the reachable states: any history from a freshly constructed client, any table of other modules, any cursor
+position inside the dynamic range -/
+def reach (cfg : IdCfg) (created : Int) (others : List (Int × Bool)) (cursor : Nat) (ops : List LOp) : LSys :=
+  lrun cfg (LSys.init created others cursor) ops
+
+theorem life_invariant (cfg : IdCfg) (created : Int) (others : List (Int × Bool)) (cursor : Nat)
+    (hc : cursor < cfg.maxDyn) (ops : List LOp) (ht : ops.all LOp.timely = true) :
+    LInv cfg (reach cfg created others cursor ops) ∧ (reach cfg created others cursor ops).cl.created = created :=
+  lrun_inv ops (linv_init cfg created others cursor hc) ht
+
+/-- **Agreement over any number of sessions.**  After every history, a connected client's *current* connection is in
+the manager's table, the two sides agree on the subscription set (`Agree`), a probe of type `t` reaches the client
+iff it reports `t` (or ALL), and paused types are not delivered.  Whatever earlier sessions subscribed to, however
+they ended. -/
+theorem life_agree_history (cfg : IdCfg) (created : Int) (others : List (Int × Bool)) (cursor : Nat)
+    (hc : cursor < cfg.maxDyn) (ops : List LOp) (ht : ops.all LOp.timely = true)
+    (hconn : (reach cfg created others cursor ops).cl.connected = true) :
+    ∃ r, (reach cfg created others cursor ops).mg.find (reach cfg created others cursor ops).cl.conn = some r ∧
+      Agree (reach cfg created others cursor ops).cl.sub r.m ∧
+      (∀ t, delivered r.m t = true ↔ (t ∈ (reach cfg created others cursor ops).cl.sub.subscribed ∨
+        ALL ∈ (reach cfg created others cursor ops).cl.sub.subscribed)) ∧
+      (∀ t ∈ (reach cfg created others cursor ops).cl.sub.paused, delivered r.m t = false) := by
+  obtain ⟨r, hf, _, _, hag⟩ := (life_invariant cfg created others cursor hc ops ht).1.cur hconn
+  exact ⟨r, hf, hag, delivered_iff hag, paused_not_delivered hag⟩
+
+/-- … and after **every phase** of the next call too (entry and exit of the context managers included). -/
+theorem life_agree_every_phase {cfg : IdCfg} {s : LSys} (h : LInv cfg s) (op : LOp) (ht : op.timely = true) :
+    ∀ x ∈ lstep cfg s op, x.1.cl.connected = true →
+      ∃ r, x.2.find x.1.cl.conn = some r ∧ Agree x.1.cl.sub r.m := by
+  intro x hx hc
+  obtain ⟨r, hf, _, _, hag⟩ := ((lstep_facts h op ht).1 x hx).inv.cur hc
+  exact ⟨r, hf, hag⟩
+
+/-- **Right after any (re)connect both sides are empty and not subscribed-to-all** — on a client that was connected,
+had disconnected, had lost its connection under a read or a send (its sets are stale then), or was never connected:
+an accepted `connect` leaves the client with empty subscribed / paused sets, `_sub_all` false, and the manager with
+an empty record for the new connection, so nothing is delivered. -/
+theorem connect_starts_empty {cfg : IdCfg} {s : LSys} (h : LInv cfg s) (allow : Bool)
+    (hok : (connectOp cfg s allow).1.status = .ok) :
+    (connectOp cfg s allow).1.cl.connected = true ∧ (connectOp cfg s allow).1.cl.sub = ⟨false, [], []⟩ ∧
+    ∃ r, (connectOp cfg s allow).2.find (connectOp cfg s allow).1.cl.conn = some r ∧ r.m = ⟨[], []⟩ ∧
+      ∀ t, delivered r.m t = false := by
+  obtain ⟨hf, hs⟩ := connectOp_facts h allow
+  obtain ⟨q, hq⟩ := Option.isSome_iff_exists.1 hs
+  obtain ⟨hc, hsub, _, ⟨r, hfind, hm⟩, _⟩ := (hf.req q hq).2 hok
+  exact ⟨hc, hsub, r, hfind, hm, fun t => by rw [hm]; rfl⟩
+
+/-- **Every connect asks for the id the object was created with** (0 = "assign me one"), whatever happened before:
+after any history — a dynamic id learnt in an earlier session, a lost connection, a refused connect. -/
+theorem connect_requests_created_id (cfg : IdCfg) (created : Int) (others : List (Int × Bool)) (cursor : Nat)
+    (hc : cursor < cfg.maxDyn) (ops : List LOp) (ht : ops.all LOp.timely = true) (allow : Bool) :
+    (connectOp cfg (reach cfg created others cursor ops) allow).1.req = some created := by
+  obtain ⟨hinv, hcr⟩ := life_invariant cfg created others cursor hc ops ht
+  obtain ⟨hf, hs⟩ := connectOp_facts hinv allow
+  obtain ⟨q, hq⟩ := Option.isSome_iff_exists.1 hs
+  rw [hq, (hf.req q hq).1, hcr]
+
+/-- **The id the client reports after an accepted connect is the one the acknowledgement carried**, and it is the
+id under which the manager's table holds the connection. -/
+theorem reported_id_is_acked_id {cfg : IdCfg} {s : LSys} (h : LInv cfg s) (allow : Bool)
+    (hok : (connectOp cfg s allow).1.status = .ok) :
+    (connectOp cfg s allow).1.ack = some (connectOp cfg s allow).1.cl.modId ∧
+    ∃ r, (connectOp cfg s allow).2.find (connectOp cfg s allow).1.cl.conn = some r ∧
+      r.modId = (connectOp cfg s allow).1.cl.modId := by
+  obtain ⟨hf, hs⟩ := connectOp_facts h allow
+  obtain ⟨q, hq⟩ := Option.isSome_iff_exists.1 hs
+  obtain ⟨hc, _, hack, _, _⟩ := (hf.req q hq).2 hok
+  obtain ⟨r, hfind, _, hid, _⟩ := hf.inv.cur hc
+  exact ⟨hack, r, hfind, hid⟩
+
+/-- **A client created with id 0 ends up, after every accepted connect, with an id of the dynamic range that no
+other record of the manager's table holds** — in particular not the id of one of its own earlier connections the
+manager has not noticed to be dead. -/
+theorem dynamic_id_fresh {cfg : IdCfg} {s : LSys} (h : LInv cfg s) (hdyn : s.cl.created = 0) (allow : Bool)
+    (hok : (connectOp cfg s allow).1.status = .ok) :
+    cfg.dynStart ≤ (connectOp cfg s allow).1.cl.modId ∧ (connectOp cfg s allow).1.cl.modId < cfg.maxModules ∧
+    ∀ r ∈ (connectOp cfg s allow).2.conns, r.cid ≠ (connectOp cfg s allow).1.cl.conn →
+      r.modId ≠ (connectOp cfg s allow).1.cl.modId := by
+  obtain ⟨hf, hs⟩ := connectOp_facts h allow
+  obtain ⟨q, hq⟩ := Option.isSome_iff_exists.1 hs
+  obtain ⟨_, _, _, _, hd⟩ := (hf.req q hq).2 hok
+  obtain ⟨hfresh, hlo, hhi⟩ := hd hdyn
+  refine ⟨hlo, hhi, fun r hr hne heq => hfresh ?_⟩
+  simp only [lheld, List.mem_map, List.mem_filter]
+  exact ⟨r, ⟨hr, by simpa using hne⟩, heq⟩
+
+/-- **A lost connection resets nothing but `connected`**: the reported sets and the reported id are what they were
+(this is the stale state the next connect has to clear — `connect_starts_empty`, `connect_requests_created_id`). -/
+theorem lost_keeps_state (s : LSys) (n : Bool) :
+    (loseConn s n).1.cl = { s.cl with connected := false } ∧ (loseConn s n).1.status = .lost := ⟨rfl, rfl⟩
+
+/-- **Why the theorems ask for timely handshakes (open finding C02-F4).**  A client subscribed to 7 loses its
+connection and connects again; the manager answers after the client's 3 s: `connect()` raises
+`AcknowledgementTimeout` and leaves the object *connected*, still reporting 7 — and, created with id 0, reporting
+`module_id` 0 — while the manager, which has by now accepted the connection as id 101, holds an empty record for it:
+the invariant is broken and the life-cycle Spec fails on the model's own trace. -/
+theorem late_ack_breaks_agreement :
+    let s := reach {} 0 [] 0 [.connect false, .sub (.ctl .subscribe [7]), .lostRead true, .connectLate false]
+    s.cl.connected = true ∧ s.cl.sub.subscribed = [7] ∧ s.cl.modId = 0 ∧
+    s.mg.conns.map (fun r => (r.cid, r.modId, r.live, r.m.subs)) = [(2, 101, true, [])] ∧
+    lhistOk {} [7] 0 (LObs.fresh 0) [.connect false, .sub (.ctl .subscribe [7]), .lostRead true, .connectLate false]
+      (ltrace {} [7] (LSys.init 0 [] 0) [.connect false, .sub (.ctl .subscribe [7]), .lostRead true, .connectLate false])
+      = false := by
+  decide +kernel
+
+/-- `disconnect()` resets the three subscription fields and keeps the id. -/
+theorem disconnect_resets (s : LSys) :
+    (disconnectOp s).1.cl = { s.cl with connected := false, sub := ⟨false, [], []⟩ } := rfl
+
+/-- A disconnected client refuses every subscription call and touches nothing. -/
+theorem disconnected_refuses (cfg : IdCfg) (s : LSys) (op : Op) (hop : op ≠ .reconnect) (hc : s.cl.connected = false) :
+    lstep cfg s (.sub op) = [(⟨s.cl, [], .notConnected, none, none⟩, s.mg)] := by
+  cases op <;> first | exact absurd rfl hop | simp [lstep, hc, ncPhase]
+
+/-- **One call meets every clause of the life-cycle Spec** (`Spec/ClientLife.lean`): `connected_reported_equals_delivered`
+and `fresh_session_is_empty` after every phase, the first layer's clauses for subscription calls on a connected client,
+`connect_requests_created_id`, `reported_id_is_acked_id`, `dynamic_id_fresh_and_in_range`. -/
+theorem life_step_meets_spec (U : List Int) {cfg : IdCfg} {s : LSys} (h : LInv cfg s) (pre : LObs)
+    (hv : pre.view = lview U s.cl s.mg) (hcn : pre.connected = s.cl.connected) (op : LOp) (ht : op.timely = true) :
+    ((lstep cfg s op).map (lobs U)).isEmpty = false ∧
+    lopFail02 U pre op ((lstep cfg s op).map (lobs U)) = none ∧
+    lopFail06 cfg s.cl.created op ((lstep cfg s op).map (lobs U)) = none := by
+  obtain ⟨hfacts, hne, hconn⟩ := lstep_facts h op ht
+  refine ⟨by simpa using hne, ?_, ?_⟩
+  · -- C02
+    have hlife : (((lstep cfg s op).map (lobs U)).flatMap (lifeC02 U)).find? (fun c => !c.2) = none := by
+      apply find_none_of_all
+      intro c hc
+      obtain ⟨o, ho, hco⟩ := List.mem_flatMap.1 hc
+      obtain ⟨x, hx, rfl⟩ := List.mem_map.1 ho
+      simp [lifeC02_ok U (hfacts x hx) c hco]
+    unfold lopFail02
+    rw [hlife]
+    simp only
+    cases hso : subOpOf op with
+    | none => rfl
+    | some sop =>
+      simp only
+      by_cases hpc : pre.connected = true
+      · simp only [hpc, if_true]
+        have hsc : s.cl.connected = true := by rw [← hcn]; exact hpc
+        obtain ⟨r, hf, _, _, hag⟩ := h.cur hsc
+        have hstep : lstep cfg s op = subPhases s sop := by
+          cases op with
+          | sub o =>
+            cases o <;> simp only [subOpOf, Option.some.injEq, reduceCtorEq] at hso <;> subst hso <;> simp [lstep, hsc]
+          | _ => simp [subOpOf] at hso
+        rw [hstep, subPhases_obs U hf, hv, lview_of_find U hf]
+        have := op_meets_spec U (s := ⟨s.cl.sub, r.m⟩) hag sop
+        simp only [opOk, Bool.and_eq_true, Option.isNone_iff_eq_none] at this
+        exact this.2
+      · simp [hpc]
+  · -- C06
+    unfold lopFail06
+    have : (((lstep cfg s op).map (lobs U)).flatMap (lifeC06 cfg s.cl.created op)).find? (fun c => !c.2) = none := by
+      apply find_none_of_all
+      intro c hc
+      obtain ⟨o, ho, hco⟩ := List.mem_flatMap.1 hc
+      obtain ⟨x, hx, rfl⟩ := List.mem_map.1 ho
+      simp [lifeC06_ok U (hfacts x hx) op (fun ha => hconn ha x hx) c hco]
+    rw [this]; rfl
+
+/-- **Every history of calls on one client object meets the life-cycle Spec** — the oracle the driver evaluates on
+what the real `Client` and the real manager did, call by call, each call judged from the observation its
+predecessors left behind. -/
+theorem life_history_meets_spec (U : List Int) (cfg : IdCfg) : ∀ (ops : List LOp) (s : LSys) (pre : LObs),
+    LInv cfg s → pre.view = lview U s.cl s.mg → pre.connected = s.cl.connected → ops.all LOp.timely = true →
+    lhistOk cfg U s.cl.created pre ops (ltrace cfg U s ops) = true
+  | [], _, _, _, _, _, _ => rfl
+  | op :: ops, s, pre, h, hv, hcn, ht => by
+    simp only [List.all_cons, Bool.and_eq_true] at ht
+    obtain ⟨h1, h2, h3⟩ := life_step_meets_spec U h pre hv hcn op ht.1
+    obtain ⟨hinv, hcr⟩ := lstep_inv h op ht.1
+    obtain ⟨hv', hcn'⟩ := lastObs_lafter U pre s (lstep cfg s op) (lstep_facts h op ht.1).2.1
+    have ih := life_history_meets_spec U cfg ops _ _ hinv hv' hcn' ht.2
+    rw [hcr] at ih
+    simp only [ltrace, lhistOk, h1, h2, h3, Bool.not_false, Option.isNone_none, Bool.true_and]
+    exact ih
+
+/-- … in particular from the constructor on -/
+theorem life_from_init_meets_spec (U : List Int) (cfg : IdCfg) (created : Int) (others : List (Int × Bool)) (cursor : Nat)
+    (hc : cursor < cfg.maxDyn) (ops : List LOp) (ht : ops.all LOp.timely = true) :
+    lhistOk cfg U created (LObs.fresh created) ops (ltrace cfg U (LSys.init created others cursor) ops) = true := by
+  have h := linv_init cfg created others cursor hc
+  have hnone : (LSys.init created others cursor).mg.find 0 = none := by
+    unfold Mgr.find
+    rw [List.find?_eq_none]
+    intro r hr
+    have : 1 ≤ r.cid := mkOthers_low others 1 r hr
+    simp; omega
+  exact life_history_meets_spec U cfg ops (LSys.init created others cursor) (LObs.fresh created) h
+    (by simp only [LObs.fresh, lview]
+        have : (LSys.init created others cursor).cl.conn = 0 := rfl
+        rw [this, hnone]; rfl) rfl ht
+
+
 /-! ### Non-vacuity and the repaired defects as concrete witnesses -/
 
 section Examples
@@ -224,6 +456,45 @@ example : lastState ⟨false, [], [7]⟩ (runOp ⟨false, [], [7]⟩ (.subCtx [7
 example : agreeOk [1, 42] ⟨[ALL], [], []⟩ = false := by decide
 example : opOk [1, 2, 42] (viewOf [1, 2, 42] CState.init MState.init) (.ctl .subscribe [1])
     (obsOfPhases [1, 2, 42] (sysStep Sys.init (.ctl .subscribe [1]))) = true := by decide
+
+/-! the life cycle -/
+
+/-- a dynamic client loses its connection without the manager noticing and connects again: it asks for 0 again, gets
+101 (100 is still held by the dead connection, with its subscriptions), and starts empty -/
+example : (reach {} 0 [] 0 [.connect false, .sub (.ctl .subscribe [1, 2]), .lostRead false, .connect false]).cl =
+    ⟨0, 101, true, 2, ⟨false, [], []⟩⟩ := by decide +kernel
+example : ((reach {} 0 [] 0 [.connect false, .sub (.ctl .subscribe [1, 2]), .lostRead false, .connect false]).mg.conns.map
+    (fun r => (r.cid, r.modId, r.m.subs))) = [(1, 100, [1, 2]), (2, 101, [])] := by decide +kernel
+/-- what a lost connection leaves behind: not connected, sets and id stale -/
+example : (reach {} 0 [] 0 [.connect false, .sub (.ctl .subscribe [ALL]), .lostSend true]).cl =
+    ⟨0, 100, false, 1, ⟨true, [ALL], []⟩⟩ := by decide +kernel
+/-- the connection dies just before `subscribe([7])`: the set is updated, nothing reaches the manager -/
+example : (lstep {} (reach {} 12 [] 0 [.connect false]) (.ctlLost .subscribe [7] false)).map
+    (fun x => (x.1.status, x.1.cl.sub.subscribed, x.2.conns.map (·.m.subs))) = [(.lost, [7], [[]])] := by decide +kernel
+/-- a unique explicit id whose dead connection the manager has not noticed: refused (the manager closes, the client
+sees `ConnectionLost`), accepted once the manager has noticed -/
+example : (lstep {} (reach {} 12 [] 0 [.connect false, .lostRead false]) (.connect false)).map
+    (fun x => (x.1.status, x.1.req, x.1.ack)) = [(.lost, some 12, none)] := by decide +kernel
+example : (lstep {} (reach {} 12 [] 0 [.connect false, .lostRead false, .mgrNotices]) (.connect false)).map
+    (fun x => (x.1.status, x.1.req, x.1.ack)) = [(.ok, some 12, some 12)] := by decide +kernel
+/-- every dynamic id taken: refused -/
+example : (connectOp ⟨100, 102⟩ (LSys.init 0 [(100, true), (101, true)] 1) false).1.status = .lost := by decide +kernel
+/-- `connect()` on a connected client: the old record is gone, the new one is empty -/
+example : ((reach {} 0 [(0, true)] 0 [.connect false, .sub (.ctl .subscribe [3]), .connect true]).mg.conns.map
+    (fun r => (r.cid, r.modId, r.unique, r.m.subs))) = [(1, 0, true, []), (3, 101, false, [])] := by decide +kernel
+/-- the oracle accepts the model's own trace and is not trivially true: a client that still reports a subscription
+after reconnecting fails `connected_reported_equals_delivered`, one that asks for its old dynamic id fails
+`connect_requests_created_id` -/
+example : lhistOk {} [1, 2] 0 (LObs.fresh 0) [.connect false, .sub (.ctl .subscribe [1]), .lostRead true, .connect false]
+    (ltrace {} [1, 2] (LSys.init 0 [] 0) [.connect false, .sub (.ctl .subscribe [1]), .lostRead true, .connect false]) =
+    true := by decide +kernel
+example : lopFail02 [1, 2] (LObs.fresh 0) (.connect false)
+    [⟨some .ok, 0, ⟨[1], [], []⟩, true, 100, some 0, some 100, []⟩] = some "connected_reported_equals_delivered" := by
+  decide +kernel
+example : lopFail06 {} 0 (.connect false)
+    [⟨some .ok, 0, ⟨[], [], []⟩, true, 100, some 100, some 100, []⟩] = some "connect_requests_created_id" := by
+  decide +kernel
+example : LInv {} (LSys.init 0 [(12, true)] 0) := linv_init _ _ _ _ (by decide)
 
 end Examples
 
